@@ -95,11 +95,12 @@ theorem walkLoop_fit (e : Env) (wf : WF e) (t r : Nat) (placed : List Nat) (fuel
     (ha : (e.taskD t).hasAlloc = true) (hm : (e.taskD t).milestone = false)
     (hsel : selectedOf e σ t w = [r]) (hlt : w.done < (e.taskD t).effort) (hpos : 0 < (e.taskD t).effort)
     (h : FInv e σ t r w vis) (hok : (walkLoop e t true fuel σ w).2.2 = true)
-    (hrl : resLimitIds e r = []) (htl : taskLimitIds e t = []) (hleaf : (e.resD r).leaf = true)
+    (hleaf : (e.resD r).leaf = true)
     (hown : Owned placed σ) (hnp : t ∉ placed) :
     ∀ p ∈ walkVisits e t fuel σ w, e.onShift r p.2.cur = true → e.leaveMark r p.2.cur = false →
       usageOf ((walkLoop e t true fuel σ w).1.led.get r p.2.cur).usage t ≠ none ∨
-      ∃ t' ∈ placed, usageOf ((walkLoop e t true fuel σ w).1.led.get r p.2.cur).usage t' ≠ none := by
+      (∃ t' ∈ placed, usageOf ((walkLoop e t true fuel σ w).1.led.get r p.2.cur).usage t' ≠ none) ∨
+      Exhausted e (walkLoop e t true fuel σ w).1 t r p.2.cur := by
   intro p hp hon hnl
   have hiff := walkLoop_no_idle e wf t r fuel σ w vis hinv hlf hw ha hm hsel hlt hpos h hok p hp
   by_cases hg : gate e p.1 t p.2 r = true
@@ -107,33 +108,40 @@ theorem walkLoop_fit (e : Env) (wf : WF e) (t r : Nat) (placed : List Nat) (fuel
   · right
     have hg' : gate e p.1 t p.2 r = false := by simpa using hg
     obtain ⟨hi1, hs1, hw1, hin1⟩ := walkVisits_inv e wf t fuel σ w hinv hs hlf hw hin p hp
-    have hhas := gate_closed_has e wf p.1 t p.2 r hi1 hs1 hw1 hin1 hrl htl hleaf hon hnl hg'
-    unfold Has at hhas
-    rw [walkVisits_ahead e t fuel σ w r p hp p.2.cur (Int.le_refl _)] at hhas
-    obtain ⟨x, hx⟩ := List.exists_mem_of_ne_nil _ hhas
-    have hxp := hown r p.2.cur x hx
-    have hne : t ≠ x.1 := fun heq => hnp (heq ▸ hxp)
-    refine ⟨x.1, hxp, ?_⟩
-    rw [walkLoop_same e t true fuel σ w x.1 hne r p.2.cur]
-    exact usageOf_of_mem hx
+    rcases gate_closed_has e wf p.1 t p.2 r hi1 hs1 hw1 hin1 hleaf hon hnl hg' with hhas | hex
+    · left
+      unfold Has at hhas
+      rw [walkVisits_ahead e t fuel σ w r p hp p.2.cur (Int.le_refl _)] at hhas
+      obtain ⟨x, hx⟩ := List.exists_mem_of_ne_nil _ hhas
+      have hxp := hown r p.2.cur x hx
+      have hne : t ≠ x.1 := fun heq => hnp (heq ▸ hxp)
+      refine ⟨x.1, hxp, ?_⟩
+      rw [walkLoop_same e t true fuel σ w x.1 hne r p.2.cur]
+      exact usageOf_of_mem hx
+    · right
+      obtain ⟨f', hf'⟩ := walkVisits_suffix e t fuel σ w p hp
+      rw [hf']
+      exact exhausted_closed_step (fun lid ro hr =>
+        closed_walkLoop (refuses_closed e lid p.2.cur ro) wf t true f' p.1 p.2 hi1 hlf trivial hw1 hin1 hr) hex
 
 /-- how a task fits: between the bound slot and any slot it is booked in, a working slot of `r` carries the task or one of `pre` -/
 def FitAt (e : Env) (σ : St) (t r : Nat) (pre : List Nat) : Prop :=
   ∀ L, usageOf (σ.led.get r L).usage t ≠ none →
     ∀ i, boundSlot e σ t ≤ i → i ≤ L → e.onShift r i = true → e.leaveMark r i = false →
-      usageOf (σ.led.get r i).usage t ≠ none ∨ ∃ t' ∈ pre, usageOf (σ.led.get r i).usage t' ≠ none
+      usageOf (σ.led.get r i).usage t ≠ none ∨ (∃ t' ∈ pre, usageOf (σ.led.get r i).usage t' ≠ none) ∨ Exhausted e σ t r i
 
 /-- **one forward task**: an earliest fit against what is in the ledger when it is placed -/
 theorem scheduleTask_fit (e : Env) (wf : WF e) (σ : St) (t r : Nat) (placed : List Nat)
     (hinv : Inv e σ) (hs : Solid e σ) (hel : Elig e t r) (hb : t < σ.ts.size) (hf : (σ.tst t).forward = true)
     (hnd : (σ.tst t).done = false) (hclean : ∀ i, usageOf (σ.led.get r i).usage t = none)
-    (hrl : resLimitIds e r = []) (htl : taskLimitIds e t = []) (hleaf : (e.resD r).leaf = true)
+    (hleaf : (e.resD r).leaf = true)
     (hown : Owned placed σ) (hnp : t ∉ placed)
     (hok : (scheduleTask e σ t).2 = true) :
     ∀ L, usageOf ((scheduleTask e σ t).1.led.get r L).usage t ≠ none →
       ∀ i, (initCursor e σ t).1 ≤ i → i ≤ L → e.onShift r i = true → e.leaveMark r i = false →
         usageOf ((scheduleTask e σ t).1.led.get r i).usage t ≠ none ∨
-        ∃ t' ∈ placed, usageOf ((scheduleTask e σ t).1.led.get r i).usage t' ≠ none := by
+        (∃ t' ∈ placed, usageOf ((scheduleTask e σ t).1.led.get r i).usage t' ≠ none) ∨
+        Exhausted e (scheduleTask e σ t).1 t r i := by
   have hpos := hel.effort
   have hpc : preStartCursor e σ t (initCursor e σ t).1 = (initCursor e σ t).1 := by
     unfold preStartCursor; simp [hel.alloc]
@@ -192,7 +200,7 @@ theorem scheduleTask_fit (e : Env) (wf : WF e) (σ : St) (t r : Nat) (placed : L
           { cur := (initCursor e σ t).1, offset := (initCursor e σ t).2 })[(i - (initCursor e σ t).1).toNat]).2.cur = i := by
         rw [hjc]; omega
       have := walkLoop_fit e wf t r placed _ _ _ [] h0 hs0 hel.leaf hw hin hel.alloc hel.nomile hsel0 hpos hpos hfi hfin
-        hrl htl hleaf hown0 hnp _ (List.getElem_mem hj) (by rw [hcur]; exact hon) (by rw [hcur]; exact hnl)
+        hleaf hown0 hnp _ (List.getElem_mem hj) (by rw [hcur]; exact hon) (by rw [hcur]; exact hnl)
       rw [hcur] at this
       exact this
     · have hfin' : (walkLoop e t true (e.size.toNat + 3) (σ.setT t (σ.tst t))
@@ -285,8 +293,13 @@ theorem fitInv_step (e : Env) (wf : WF e) (σ : St) (tasks placed : List Nat) (t
         rw [hstart]
         cases (e.taskD t).start <;> rfl
       have := scheduleTask_fit e wf σ t r placed h.inv h.solid hel.el (h.inrange t hmem) hfw hnd0 (hclean0 r)
-        hel.rl hel.tl hel.rleaf h.owned hnp0 hok L (by rw [updateContainers_led] at hL; exact hL) i (by rw [hic]; exact hbi) hiL hon hnl
-      rw [updateContainers_led]; exact this
+        hel.rleaf h.owned hnp0 hok L (by rw [updateContainers_led] at hL; exact hL) i (by rw [hic]; exact hbi) hiL hon hnl
+      rw [updateContainers_led]
+      rcases this with h1 | h1 | h1
+      · exact Or.inl h1
+      · exact Or.inr (Or.inl h1)
+      · exact Or.inr (Or.inr (exhausted_closed_step (fun lid ro hr =>
+          closed_updateContainers (refuses_closed e lid i ro) _ hr) h1))
     · have htsame := hsame t heq (Or.inl hel.el.leaf)
       rw [htsame] at hd hfw
       obtain ⟨post, pre, hsplit, hfit⟩ := h.ok t r hel hd hfw
@@ -300,9 +313,9 @@ theorem fitInv_step (e : Env) (wf : WF e) (σ : St) (tasks placed : List Nat) (t
       rw [boundSlot_congr e σ _ t (fun dp hdp => by rw [htgt dp hdp]; exact ⟨rfl, rfl⟩)] at hbi
       rw [updateContainers_led, scheduleTask_same e σ t0 t (Ne.symm heq) r L] at hL
       rw [updateContainers_led, scheduleTask_same e σ t0 t (Ne.symm heq) r i]
-      rcases hfit L hL i hbi hiL hon hnl with h1 | ⟨t', ht', h1⟩
+      rcases hfit L hL i hbi hiL hon hnl with h1 | ⟨t', ht', h1⟩ | h1
       · exact Or.inl h1
-      · right
+      · right; left
         refine ⟨t', ht', ?_⟩
         have hne : t0 ≠ t' := by
           intro h5
@@ -311,6 +324,10 @@ theorem fitInv_step (e : Env) (wf : WF e) (σ : St) (tasks placed : List Nat) (t
           exact List.mem_append_right _ (List.mem_cons_of_mem _ ht')
         rw [scheduleTask_same e σ t0 t' hne r i]
         exact h1
+      · right; right
+        exact exhausted_closed_step (fun lid ro hr =>
+          closed_updateContainers (refuses_closed e lid i ro) _
+            (closed_scheduleTask (refuses_closed e lid i ro) wf σ t0 h.inv hlf0 trivial hr)) h1
 
 theorem pickLoop_doneFit (e : Env) (wf : WF e) (fuel : Nat) (tasks failed placed : List Nat) (σ : St)
     (h : FitInv e σ tasks placed) : ∃ placed', DoneFit e (pickLoop e fuel tasks failed σ).1 placed' := by
@@ -383,6 +400,9 @@ theorem runScenario_doneFit (e : Env) (wf : WF e) (tr : Tree e) : ∃ order, Don
   rw [boundSlot_congr e (scheduleScenario e (prepare e (initState e))) _ t
     (fun dp _ => ⟨(hsd dp.target).1, (hsd dp.target).2.1⟩)] at hbi
   rw [finishScenario_led] at hL ⊢
-  exact hfit L hL i hbi hiL hon hnl
+  rcases hfit L hL i hbi hiL hon hnl with h1 | h1 | h1
+  · exact Or.inl h1
+  · exact Or.inr (Or.inl h1)
+  · exact Or.inr (Or.inr (exhausted_closed_step (fun lid ro hr => closed_finishScenario (refuses_closed e lid i ro) _ hr) h1))
 
 end SP
